@@ -7,6 +7,7 @@ import (
 	"sort"
 	"strings"
 
+	gast "github.com/vektah/gqlparser/v2/ast"
 	"golang.org/x/tools/go/ssa"
 
 	"verif/internal/ob"
@@ -29,6 +30,12 @@ type GenPkg struct {
 	SSA  *ssa.Package
 	Fed  bool
 	Spec GenSpec
+
+	schemaDone bool
+	schemaVal  *gast.Schema
+	funcs      []*ssa.Function
+	cfgDone    bool
+	cfg        map[string]any
 }
 
 // Property describes one property's check.
@@ -130,3 +137,5 @@ const (
 
 // RuntimeCore is the pattern set of the runtime packages.
 var RuntimeCore = []string{"./graphql/...", "./complexity"}
+
+func sortStrings(s []string) { sort.Strings(s) }
